@@ -4,7 +4,7 @@
  2. code->spec: hook traces of real chains (3 NUTS presets x kinetic energies x options x densities x
     fault plans) validated line by line against NutsTreeTrace
 """
-import json, os
+import json, os, shutil
 import common as C
 import project, scenarios
 
@@ -12,9 +12,17 @@ import project, scenarios
 def record_runs(scs, name, threads=8):
     wd = C.workdir("rec_" + name)
     inp, out = os.path.join(wd, "sc.ndjson"), os.path.join(wd, "raw.ndjson")
-    with open(inp, "w") as f:
-        f.write("\n".join(json.dumps(s) for s in scs) + "\n")
-    C.vh(["record-chains", inp, out], env={"VH_THREADS": str(threads)}, check=True, timeout=7200)
+    # the harness keeps the events of a batch in memory until it is written: record in batches
+    batch = 150
+    with open(out, "w") as fo:
+        for b in range(0, len(scs), batch):
+            part = os.path.join(wd, "part.ndjson")
+            with open(inp, "w") as f:
+                f.write("\n".join(json.dumps(s) for s in scs[b:b + batch]) + "\n")
+            C.vh(["record-chains", inp, part], env={"VH_THREADS": str(threads)}, check=True, timeout=7200)
+            with open(part) as fi:
+                shutil.copyfileobj(fi, fo)
+            os.remove(part)
     return out
 
 
